@@ -3,7 +3,7 @@ From Oras Require Import Base.Prelude Base.FlatFS Model.Base64 Model.CredFile Mo
 Extraction Language OCaml.
 
 (* the runner instantiates the base64 parameters with the concrete codec *)
-Definition x_open_store := open_store.
+Definition x_open_store := open_file.
 Definition x_step := step b64_encode b64_decode.
 Definition x_candidates := get_candidates b64_decode.
 Definition x_run_sched := run_sched b64_encode b64_decode.
